@@ -26,8 +26,16 @@ def sedpack(rust: bool = False):
     return sedpack
 
 
-def mk(path, fmt="fb", comp="", eps=3, attrs=None, hashes=("sha256",), custom=None):
+HASH_CHOICES = [("sha256",), (), ("xxh64", "md5", "xxh64"), ("sha256",)]
+
+
+def mk(path, fmt="fb", comp="", eps=3, attrs=None, hashes=None, custom=None):
+    """Create a dataset.  When the caller does not care about the checksum configuration (`hashes=None`) it is varied
+    deterministically with the location: one algorithm, none at all, several with a repetition."""
     sedpack()
+    if hashes is None:
+        import zlib
+        hashes = HASH_CHOICES[zlib.crc32(str(Path(path).name).encode()) % len(HASH_CHOICES)]
     from sedpack.io import Dataset, Metadata, DatasetStructure, Attribute
     attrs = attrs or [Attribute(name="a", dtype="int32", shape=(2,))]
     ds = DatasetStructure(saved_data_description=attrs, compression=comp, examples_per_shard=eps,
